@@ -51,6 +51,9 @@ type Script struct {
 	ListErrAt int `json:"list_err_at,omitempty"`
 	// Inner != "": the registry that is wrapped is itself a wrapper (access | select) around the backend,
 	// with a policy of its own that allows everything (InnerRejects false) or rejects everything
+	// IDFrom (PushBlobChunkedResume): the upload id is the one of an upload started, through the same
+	// wrapper, in repository IDFrom just before (when the policy lets that through)
+	IDFrom       string `json:"id_from,omitempty"`
 	Inner        string `json:"inner,omitempty"`
 	InnerRejects bool   `json:"inner_rejects,omitempty"`
 }
@@ -166,7 +169,8 @@ func run(s Script, v *vt.V) {
 	var gotList []string
 	var gotDescs []ociregistry.Descriptor
 	listCalls, listErrs := 0, 0
-	withErr := "" // the item delivered together with the error that ended a listing
+	var rerun func() (int, error) // runs the returned sequence once more
+	withErr := ""                 // the item delivered together with the error that ended a listing
 	collectS := func(it ociregistry.Seq[string]) {
 		done := false
 		it(func(x string, err error) bool {
@@ -185,6 +189,17 @@ func run(s Script, v *vt.V) {
 			gotList = append(gotList, x)
 			return len(gotList) < 1000
 		})
+	}
+	priorCalls, priorWriters := 0, 0
+	if s.Method == "PushBlobChunkedResume" && s.IDFrom != "" {
+		if w0, err := reg.PushBlobChunked(ctx, s.IDFrom, 17); err == nil {
+			s.ID = w0.ID() // (the upload stays open: it is neither committed nor cancelled)
+			v.Class("resume-with-id-of-another-upload")
+		}
+		priorCalls = len(r.Calls())
+		priorWriters = len(r.Writers())
+		policyCalls = nil
+		innerPolicyCalls = 0
 	}
 	switch s.Method {
 	case "GetBlob":
@@ -220,10 +235,14 @@ func run(s Script, v *vt.V) {
 	case "Repositories":
 		collectS(reg.Repositories(ctx, s.Start))
 	case "Tags":
-		collectS(reg.Tags(ctx, s.Repo, s.Start))
+		seq := reg.Tags(ctx, s.Repo, s.Start)
+		collectS(seq)
+		rerun = func() (int, error) { l, err := ociregistry.All(seq); return len(l), err }
 	case "Referrers":
 		done := false
-		reg.Referrers(ctx, s.Repo, dg, "")(func(d ociregistry.Descriptor, err error) bool {
+		rseq := reg.Referrers(ctx, s.Repo, dg, "")
+		rerun = func() (int, error) { l, err := ociregistry.All(rseq); return len(l), err }
+		rseq(func(d ociregistry.Descriptor, err error) bool {
 			listCalls++
 			if done {
 				listErrs += 100
@@ -259,7 +278,7 @@ func run(s Script, v *vt.V) {
 		v.NonTrivial(fmt.Sprintf("%s|listfault|%v|%v|%v|%d", s.Wrapper, s.Policy, s.Default, s.Listed, lf.at))
 		return
 	}
-	calls := r.Calls()
+	calls := r.Calls()[priorCalls:]
 	v.Class("%s/%s/rejected=%v", s.Wrapper, s.Method, rejected)
 	if s.Inner != "" {
 		v.Class("stacked/%s-over-%s/outer-rejects=%v/inner-rejects=%v", s.Wrapper, s.Inner, rejected, s.InnerRejects)
@@ -310,6 +329,13 @@ func run(s Script, v *vt.V) {
 		if listErrs > 1 {
 			v.Failf("consumer-protocol", "%s: the consumer was invoked again after the error", desc)
 		}
+		// a rejected listing is rejected every time its sequence is run
+		if rerun != nil {
+			items, err2 := rerun()
+			if err2 == nil || items > 0 || len(r.Calls()[priorCalls:]) != 0 {
+				v.Failf("rejected-second-run", "%s: the policy rejects; the first run of the returned sequence said so, a second run of the same sequence delivered %d items, error %v, and the wrapped registry saw %v", desc, items, err2, r.Calls()[priorCalls:])
+			}
+		}
 		return
 	}
 	// allowed: exactly one backend call with the caller's arguments, results passed through
@@ -345,7 +371,7 @@ func run(s Script, v *vt.V) {
 		}
 		gotReader.Close()
 	case gotWriter != nil:
-		ws := r.Writers()
+		ws := r.Writers()[priorWriters:]
 		if len(ws) != 1 {
 			v.Failf("allowed-wrong-result", "%s: %d writers handed out", desc, len(ws))
 			return
@@ -361,7 +387,10 @@ func run(s Script, v *vt.V) {
 			return
 		}
 		cm := r.Commits()
-		if len(cm) != 1 || cm[0].Repo != s.Repo || string(cm[0].Data) != "payload" {
+		if s.IDFrom != "" {
+			// (the recording backend files a commit under the repository its session was started in)
+			cm = nil
+		} else if len(cm) != 1 || cm[0].Repo != s.Repo || string(cm[0].Data) != "payload" {
 			v.Failf("allowed-wrong-result", "%s: backend commits %v", desc, cm)
 		}
 	}
@@ -457,6 +486,9 @@ func genScript(t *rapid.T) Script {
 	case "MountBlob":
 		s.From = rapid.SampledFrom(names).Draw(t, "from")
 	case "PushBlobChunkedResume":
+		if rapid.IntRange(0, 2).Draw(t, "idFrom") == 0 {
+			s.IDFrom = rapid.SampledFrom(names[:4]).Draw(t, "idFromRepo")
+		}
 		s.ID = rapid.SampledFrom([]string{"", "", "upload-1", "x", "/v2/a/blobs/uploads/x", "/v2/b/blobs/uploads/x", "/v2/a/b/blobs/uploads/x", "https://r.test/v2/c/blobs/uploads/y?z=1"}).Draw(t, "id")
 		s.Offset = rapid.SampledFrom([]int64{-1, 0, 0, 1, 100}).Draw(t, "offset")
 	case "Repositories", "Tags":
@@ -479,7 +511,7 @@ func genScript(t *rapid.T) Script {
 var prop = &vt.Prop[Script]{
 	ID:   "C12",
 	Name: "FilterWrappersRandomPolicies",
-	Rule: "wrapper in {AccessChecker, Select}; policy = random table (repository name, access kind) -> allow | one of three distinct errors, with a default row (pure function; Select's depends on the name only); method = each of the 18 Interface methods with repositories from {a, b, a/b, c, the empty name, '../a'} (the policy is asked about whatever name the caller passes; mount: source and target, incl. the same repository), resume ids {empty, opaque, shaped like the upload location of each repository} x offsets {-1,0,1,100}, listing start points, backend repository listings incl. a repository named '*'; recording backend that accepts everything; a quarter of the wrappers are laid over a registry that is itself an AccessChecker/Select wrapper with a counting policy of its own (allow-all or reject-all): that wrapper is the wrapped registry, so a call the outer policy rejects does not reach its policy either and fails with the outer policy's error; oracle = policy rejects => zero backend calls, the policy's own error (Select: name-unknown for read/list/delete, denied for write), no data; policy allows => exactly one backend call with the caller's context and arguments, the backend's own reader/writer/results (writers are used: Write+Commit must land in the backend's session); repository listings = backend's list filtered by the read verdict; a backend listing that breaks off by yielding a name together with an error reaches the consumer as an error without any hidden name; non-trivial = some involved repository is rejected, or a listing is filtered; distinct = (wrapper, method, policy, arguments)",
+	Rule: "wrapper in {AccessChecker, Select}; policy = random table (repository name, access kind) -> allow | one of three distinct errors, with a default row (pure function; Select's depends on the name only); method = each of the 18 Interface methods with repositories from {a, b, a/b, c, the empty name, '../a'} (the policy is asked about whatever name the caller passes; mount: source and target, incl. the same repository), resume ids {empty, opaque, shaped like the upload location of each repository} x offsets {-1,0,1,100}, listing start points, backend repository listings incl. a repository named '*'; recording backend that accepts everything; a third of the resumes present the id of an upload just started through the same wrapper in another (or the same) repository; the sequence of a rejected Tags / Referrers call is run a second time; a quarter of the wrappers are laid over a registry that is itself an AccessChecker/Select wrapper with a counting policy of its own (allow-all or reject-all): that wrapper is the wrapped registry, so a call the outer policy rejects does not reach its policy either and fails with the outer policy's error; oracle = policy rejects => zero backend calls, the policy's own error (Select: name-unknown for read/list/delete, denied for write), no data; policy allows => exactly one backend call with the caller's context and arguments, the backend's own reader/writer/results (writers are used: Write+Commit must land in the backend's session); repository listings = backend's list filtered by the read verdict; a backend listing that breaks off by yielding a name together with an error reaches the consumer as an error without any hidden name; non-trivial = some involved repository is rejected, or a listing is filtered; distinct = (wrapper, method, policy, arguments)",
 	Gen:  genScript,
 	Run:  run,
 }
